@@ -177,13 +177,100 @@ Mul(a, b) ==
     ELSE IF b.t = "mat" /\ IsScalar(a)
          THEN [k |-> "mat", m |-> Mat(MaxTc(OTc(a), OTc(b)), b.m.nr, b.m.nc, [p \in 1..Size(b.m) |-> CMul(Scalar(a), b.m.buf[p])])]
     ELSE Err("TypeOrValue")
+(*************** division, remainder, powers, absolute values ****************)
+(* Results that are not Gaussian integers cannot be written in this model: the operator then returns                           *)
+(*      [k |-> "cut", tc, nr, nc]   type and shape of the result are specified, its values are not compared, the trace ends    *)
+(*      [k |-> "unspec"]            the manual does not say what happens (elementwise division by a zero entry): the trace ends *)
+Cut(tc, nr, nc) == [k |-> "cut", tc |-> tc, nr |-> nr, nc |-> nc]
+IsCZ(c) == c[1] = 0 /\ c[2] = 0
+Norm2(c) == c[1] * c[1] + c[2] * c[2]
+\* The implementation divides by multiplying with the reciprocal (dscal / zscal with 1/c): the quotient is exact in floating point only when
+\* the reciprocal is, i.e. for a real divisor that is a power of two; every other quotient is "equal to rounding" and is not compared here.
+Pow2(c) == c[2] = 0 /\ (c[1] \in {1, 2, 4, 8, 16} \/ -c[1] \in {1, 2, 4, 8, 16})
+DivExact(v, c) == LET n == CMul(v, CConj(c)) IN Pow2(c) /\ n[1] % Norm2(c) = 0 /\ n[2] % Norm2(c) = 0
+CDiv(v, c) == LET n == CMul(v, CConj(c)) IN <<n[1] \div Norm2(c), n[2] \div Norm2(c)>>
+\* A / c : "dividing all its entries by c"; c a number or a 1 by 1 matrix; integer / integer is a real matrix (Python 3)
+\* (a number divided by a 1 by 1 matrix is not in the table of the manual: unspecified)
+Div(a, b) ==
+    IF a.t = "num" /\ b.t = "mat" /\ Size(b.m) = 1 THEN [k |-> "unspec"]
+    ELSE IF a.t # "mat" \/ ~IsScalar(b) THEN Err("TypeOrValue")
+    ELSE LET c == Scalar(b)
+             tc == MaxTc(MaxTc(a.m.tc, OTc(b)), "d")
+         IN  IF IsCZ(c) THEN Err("ZeroDivision")
+             ELSE IF \A p \in 1..Size(a.m) : DivExact(a.m.buf[p], c)
+                  THEN [k |-> "mat", m |-> Mat(tc, a.m.nr, a.m.nc, [p \in 1..Size(a.m) |-> CDiv(a.m.buf[p], c)])]
+                  ELSE Cut(tc, a.m.nr, a.m.nc)
+\* D % c : remainder with the sign of the divisor (Python convention); not defined for complex operands
+FloorMod(v, c) == IF c > 0 THEN v % c ELSE -((-v) % (-c))
+Mod(a, b) ==
+    IF a.t = "num" /\ b.t = "mat" /\ Size(b.m) = 1 THEN [k |-> "unspec"]
+    ELSE IF a.t # "mat" \/ ~IsScalar(b) THEN Err("TypeOrValue")
+    ELSE IF a.m.tc = "z" \/ OTc(b) = "z" THEN Err("Unsupported")
+    ELSE IF IsCZ(Scalar(b)) THEN Err("ZeroDivision")
+    ELSE [k |-> "mat", m |-> Mat(MaxTc(a.m.tc, OTc(b)), a.m.nr, a.m.nc, [p \in 1..Size(a.m) |-> <<FloorMod(a.m.buf[p][1], Scalar(b)[1]), 0>>])]
+\* D ** e : elementwise, e a Python number; an integer matrix gives a real matrix
+RECURSIVE IPow(_, _)
+IPow(v, e) == IF e = 0 THEN <<1, 0>> ELSE CMul(v, IPow(v, e - 1))
+Pow(a, e) ==
+    IF a.t # "mat" \/ e.t # "num" THEN Err("TypeOrValue")
+    ELSE LET tc == IF a.m.tc = "z" \/ e.x.tc = "z" THEN "z" ELSE "d" IN
+         IF (e.x.v[1] < 0 \/ e.x.tc = "z") /\ \E p \in 1..Size(a.m) : IsCZ(a.m.buf[p]) THEN [k |-> "unspec"]     \* a negative or complex power of zero: not documented
+         ELSE IF tc = "z" \/ e.x.v[1] < 0 THEN Cut(tc, a.m.nr, a.m.nc)            \* complex powers go through exp / log: not exact
+         ELSE [k |-> "mat", m |-> Mat(tc, a.m.nr, a.m.nc, [p \in 1..Size(a.m) |-> IPow(a.m.buf[p], e.x.v[1])])]
+\* abs(A): integer stays integer, real stays real, complex gives the real matrix of moduli
+ISqrt(n) == CHOOSE r \in 0..n : r * r <= n /\ (r + 1) * (r + 1) > n
+AbsM(a) ==
+    IF a.tc # "z" THEN [k |-> "mat", m |-> Mat(a.tc, a.nr, a.nc, [p \in 1..Size(a) |-> <<IF a.buf[p][1] < 0 THEN -a.buf[p][1] ELSE a.buf[p][1], 0>>])]
+    ELSE IF \A p \in 1..Size(a) : ISqrt(Norm2(a.buf[p])) * ISqrt(Norm2(a.buf[p])) = Norm2(a.buf[p])
+         THEN [k |-> "mat", m |-> Mat("d", a.nr, a.nc, [p \in 1..Size(a) |-> <<ISqrt(Norm2(a.buf[p])), 0>>])]
+         ELSE Cut("d", a.nr, a.nc)
+
+(************************ elementwise functions (cvxopt.mul, div, max, min) ************************)
+\* two arguments: matrices of the same size, or scalars (a 1 by 1 matrix is a scalar unless all arguments are 1 by 1)
+EwShape(a, b) == AddShape(a, b)
+EwMul(a, b) ==
+    IF a.t = "num" /\ b.t = "num" THEN Num(MaxTc(a.x.tc, b.x.tc), CMul(a.x.v, b.x.v))
+    ELSE LET sh == EwShape(a, b) IN
+         IF sh[1] < 0 THEN Err("TypeOrValue")
+         ELSE LET x == Bcast(a, sh[1], sh[2])  y == Bcast(b, sh[1], sh[2]) IN
+              [k |-> "mat", m |-> Mat(MaxTc(OTc(a), OTc(b)), sh[1], sh[2], [p \in 1..(sh[1] * sh[2]) |-> CMul(x[p], y[p])])]
+EwDiv(a, b) ==
+    IF a.t = "num" /\ b.t = "num" THEN [k |-> "unspec"]
+    ELSE LET sh == EwShape(a, b) IN
+         IF sh[1] < 0 THEN Err("TypeOrValue")
+         ELSE LET x == Bcast(a, sh[1], sh[2])  y == Bcast(b, sh[1], sh[2])
+                  tc == MaxTc(MaxTc(OTc(a), OTc(b)), "d") IN
+              IF \E p \in 1..(sh[1] * sh[2]) : IsCZ(y[p]) THEN [k |-> "unspec"]
+              ELSE IF \A p \in 1..(sh[1] * sh[2]) : DivExact(x[p], y[p])
+                   THEN [k |-> "mat", m |-> Mat(tc, sh[1], sh[2], [p \in 1..(sh[1] * sh[2]) |-> CDiv(x[p], y[p])])]
+                   ELSE Cut(tc, sh[1], sh[2])
+EwMaxMin(a, b, ismax) ==
+    IF OTc(a) = "z" \/ OTc(b) = "z" THEN Err("TypeOrValue")
+    ELSE LET pick(u, v) == IF ismax THEN (IF u[1] >= v[1] THEN u ELSE v) ELSE (IF u[1] <= v[1] THEN u ELSE v) IN
+         IF a.t = "num" /\ b.t = "num" THEN [k |-> "unspec"]       \* "the result is a number": which of the two equal-valued number types is not said
+         ELSE LET sh == EwShape(a, b) IN
+              IF sh[1] < 0 THEN Err("TypeOrValue")
+              ELSE LET x == Bcast(a, sh[1], sh[2])  y == Bcast(b, sh[1], sh[2]) IN
+                   [k |-> "mat", m |-> Mat(MaxTc(OTc(a), OTc(b)), sh[1], sh[2], [p \in 1..(sh[1] * sh[2]) |-> pick(x[p], y[p])])]
+\* the built-in max / min of a dense matrix: the largest / smallest element (complex numbers are not ordered, an empty matrix has none)
+RECURSIVE Extreme(_, _)
+Extreme(s, ismax) == IF Len(s) = 1 THEN s[1]
+                     ELSE LET r == Extreme(Tail(s), ismax) IN IF ismax THEN (IF s[1][1] >= r[1] THEN s[1] ELSE r) ELSE (IF s[1][1] <= r[1] THEN s[1] ELSE r)
+MaxMin1(a, ismax) == IF Size(a) = 1 THEN Num(a.tc, a.buf[1])                          \* nothing to compare
+                     ELSE IF a.tc = "z" \/ Size(a) = 0 THEN Err("TypeOrValue") ELSE Num(a.tc, Extreme(a.buf, ismax))
+
 BinOp(op, a, b) == CASE op = "+" -> AddSub(a, b, FALSE) [] op = "-" -> AddSub(a, b, TRUE) [] op = "*" -> Mul(a, b)
+                     [] op = "/" -> Div(a, b) [] op = "%" -> Mod(a, b) [] op = "**" -> Pow(a, b)
+                     [] op = "mul" -> EwMul(a, b) [] op = "div" -> EwDiv(a, b) [] op = "max" -> EwMaxMin(a, b, TRUE) [] op = "min" -> EwMaxMin(a, b, FALSE)
 
 \* in-place: allowed exactly when neither the type nor the size of A changes; A *= B only for scalar B
 IBinOp(op, a, b) ==
     LET r == IF op = "*" THEN (IF IsScalar(b) THEN Mul([t |-> "mat", m |-> a], b) ELSE Err("TypeOrValue"))
              ELSE BinOp(op, [t |-> "mat", m |-> a], b)
-    IN  IF r.k = "err" THEN r
+    IN  IF r.k = "err" THEN (IF r.cls \in {"ZeroDivision", "Unsupported"} /\ op \in {"/", "%"} /\ MaxTc(MaxTc(a.tc, OTc(b)), IF op = "/" THEN "d" ELSE "i") # a.tc
+                             THEN Err("AnyErr") ELSE r)      \* two reasons to refuse: which one is reported is not specified
+        ELSE IF r.k = "unspec" THEN r
+        ELSE IF r.k = "cut" THEN (IF r.tc # a.tc \/ r.nr # a.nr \/ r.nc # a.nc THEN Err("TypeOrValue") ELSE r)
         ELSE IF r.m.tc # a.tc \/ r.m.nr # a.nr \/ r.m.nc # a.nc THEN Err("TypeOrValue")
         ELSE [k |-> "ok", m |-> r.m]
 
@@ -239,6 +326,15 @@ Do(op) ==
                                         THEN [k |-> "ok", m |-> [heap[env[op.src]] EXCEPT !.nr = op.size[1], !.nc = op.size[2]]]
                                         ELSE Err("TypeOrValue"), op.src)
          [] op.k = "alias"    -> /\ env' = [env EXCEPT ![op.dst] = env[op.src]] /\ UNCHANGED <<heap, nextid>> /\ out' = NoOut
+         [] op.k = "abs"      -> Produce(AbsM(heap[env[op.src]]), op.dst)
+         [] op.k = "max1"     -> /\ UNCHANGED <<heap, env, nextid>> /\ out' = MaxMin1(heap[env[op.src]], TRUE)
+         [] op.k = "min1"     -> /\ UNCHANGED <<heap, env, nextid>> /\ out' = MaxMin1(heap[env[op.src]], FALSE)
+         [] op.k = "bool"     -> /\ UNCHANGED <<heap, env, nextid>>          \* False for a zero matrix, True otherwise
+                                 /\ out' = [k |-> "bool", v |-> \E p \in DOMAIN heap[env[op.src]].buf : ~IsCZ(heap[env[op.src]].buf[p])]
+         [] op.k = "in"       -> /\ UNCHANGED <<heap, env, nextid>>
+                                 /\ out' = [k |-> "bool", v |-> \E p \in DOMAIN heap[env[op.src]].buf : heap[env[op.src]].buf[p] = op.x.v]
+         [] op.k = "list"     -> /\ UNCHANGED <<heap, env, nextid>>          \* iteration: the elements in column-major order
+                                 /\ out' = [k |-> "seq", tc |-> heap[env[op.src]].tc, vs |-> heap[env[op.src]].buf]
          [] op.k = "len"      -> /\ UNCHANGED <<heap, env, nextid>> /\ out' = Num("i", <<Size(heap[env[op.src]]), 0>>)
          [] op.k = "sum"      -> /\ UNCHANGED <<heap, env, nextid>> /\ out' = Num(heap[env[op.src]].tc, CSum(heap[env[op.src]].buf))
 
